@@ -30,7 +30,8 @@ structure Call where
   yIsZeroOne : Bool            -- y takes exactly the values {0, 1}
   yHasStrings : Bool
   strInQuant : Bool            -- a string in a quantitative feature
-  outsideRanking : Bool        -- a value of an ordinal feature that is not in its ranking
+  outsideRanking : Bool        -- a value that is not in its ranking, in an ordinal feature that the frequency filter keeps
+                               -- (a feature whose most frequent value is rarer than min_freq is dropped before the check)
 deriving DecidableEq, Repr, Inhabited
 
 def isCarver (k : Kind) : Bool := k == .binaryCarver || k == .continuousCarver || k == .multiclassCarver
